@@ -37,6 +37,9 @@ type ReqPlan struct {
 	DefaultCode int       `json:"default_code,omitempty"`
 	AuthReject bool       `json:"auth_reject,omitempty"`
 	Faults     sim.Faults `json:"faults"`
+	// RespEmptyArrays: the planned response may carry empty/nil array-typed headers (not expressible on the wire,
+	// hence never used where the response is compared with what the client reconstructs).
+	RespEmptyArrays bool  `json:"resp_empty_arrays,omitempty"`
 	// NotJudged: the request only exists to disturb the others (its own outcome is not checked).
 	NotJudged  bool       `json:"not_judged,omitempty"`
 	// InjectCred > 0: the transport adds the credential of the (InjectCred-1)-th security scheme of the spec to
@@ -339,7 +342,7 @@ func BuildResponse(p *Pkg, rp *ReqPlan, failRaw bool) (reflect.Value, reflect.Ty
 		panic("harness: operation without response types: " + op.Name)
 	}
 	rt := op.RespTypes[rp.RespIdx%len(op.RespTypes)]
-	g := &values.Gen{R: frng(rp.RespSeed, 2), Tag: rp.Tag, Level: rp.Level, OneOf: p.OneOf, Discr: p.Discr, MaxRaw: 96 << 10}
+	g := &values.Gen{R: frng(rp.RespSeed, 2), Tag: rp.Tag, Level: rp.Level, OneOf: p.OneOf, Discr: p.Discr, MaxRaw: 96 << 10, EmptySlices: rp.RespEmptyArrays}
 	v := g.Value(rt, values.LocHeader)
 	if f := v.FieldByName("Code"); f.IsValid() && f.Kind() == reflect.Int {
 		f.SetInt(int64(rp.DefaultCode))
@@ -475,7 +478,8 @@ func (e *env) setup() (restore func()) {
 		}))
 	}
 	if p.MwField >= 0 && e.plan.Middlewares > 0 {
-		mws := reflect.MakeSlice(p.APIType.Field(p.MwField).Type, 0, e.plan.Middlewares)
+		// spare capacity, as after a few append() calls in user code: an append on the shared slice must still copy
+		mws := reflect.MakeSlice(p.APIType.Field(p.MwField).Type, 0, e.plan.Middlewares+2)
 		var schemaPath func(*http.Request) (string, bool)
 		if f, ok := p.Funcs["SchemaPath"].(func(*http.Request) (string, bool)); ok {
 			schemaPath = f
